@@ -130,6 +130,12 @@ def check_fresh(rep, db, f, inst):
                         c = e2.a[2]
                         if isinstance(c, tuple) and c[:1] == ("ucall",) and q.short(c[2]) == "operator==" and fr in c[3] and any(isinstance(x, tuple) and x[:1] == ("ucall",) and q.short(x[2]) == "end" for x in c[3]):
                             fresh = True
+        # equivalent idiom: pointer_map.count(i) == 0 / !pointer_map.contains(i)
+        for i, e in enumerate(evs):
+            if e.kind == "CALL" and q.short(e.a) in ("count", "contains") and e.c is not None and "pointer_map" in fmt(e.c) and argvals(e) and strip_casts(argvals(e)[0]) == r:
+                cr = (e.extra or {}).get("ret")
+                if any(e2.kind == "ASSUME" and e2.a == ("cmp", "==", cr, C(0)) for e2 in evs[i:]):
+                    fresh = True
         if not fresh:
             rep.violation("R-C15-fresh", site(f), "the returned token is not control-dependent on `pointer_map.find(token) == end()` for the same token (a token in use could be handed out twice)", f["loc"], inst)
             return
